@@ -46,7 +46,7 @@ pub fn encode_case(acc: &mut Acc, s: &dyn Subject, v: &Val) -> Option<(Box<dyn A
 /// included) come from a writer one to three evolution steps ahead (version byte n, a header, chunk 0 with the elements,
 /// then chunks this reader knows nothing about), some sequences are in the unknown-length form
 fn newer_tuple_encoding(ctx: &Ctx, tag: u64, id: &str, idx: u64, ty: &Ty, v: &Val) -> Option<Vec<u8>> {
-    if !ty.any(&mut |t| matches!(t, Ty::Tuple(_) | Ty::Map(_, _) | Ty::Enum(_) | Ty::Seq(_) | Ty::Set(_) | Ty::Array(_, _)), &mut Vec::new()) {
+    if !ty.any(&mut |t| matches!(t, Ty::Tuple(_) | Ty::Map(_, _) | Ty::Enum(_) | Ty::Seq(_) | Ty::Set(_) | Ty::Array(_, _) | Ty::DedupStr), &mut Vec::new()) {
         return None;
     }
     let mut r1 = ctx.rng_for(tag ^ 0x7E, id, idx);
@@ -67,7 +67,18 @@ fn newer_tuple_encoding(ctx: &Ctx, tag: u64, id: &str, idx: u64, ty: &Ty, v: &Va
             0
         }
     };
-    let b = ref_encode_newer_tuples(ty, v, &mut choose, &mut newer).ok()?;
+    // a known deduplicated string may be sent in full again (the Scala writer does): it keeps the id it has
+    let mut r3 = ctx.rng_for(tag ^ 0x7D, id, idx);
+    let mut known_before = 0u32;
+    let mut full = || {
+        known_before += 1;
+        let f = r3.chance(1, 3);
+        if f && known_before > 1 {
+            any.set(true);
+        }
+        f
+    };
+    let b = ref_encode_newer_tuples(ty, v, &mut choose, &mut newer, &mut full).ok()?;
     if any.get() {
         Some(b)
     } else {
